@@ -8,6 +8,7 @@ import (
 
 	log "github.com/go-spring/log"
 	zzvrt "github.com/go-spring/log/zzvrt"
+	"github.com/go-spring/log/zzvrt/vtime"
 )
 
 // ---------------------------------------------------------------------------------------------
@@ -169,4 +170,143 @@ func init() {
 			}
 		})
 	}
+}
+
+// ---------------------------------------------------------------------------------------------
+// C10 - "the wall clock if unset" through the lifecycle, for every registered top-level property:
+// no time hook is set; the virtual clock is moved by 90 minutes before every probe. A record must carry
+// the clock's reading at its call (tolerance 1 s: the layouts print milliseconds, a coarser cached clock
+// would still be "the wall clock") - while a configuration that sets the property is live, after Destroy
+// (built-in logger), under a second configuration that does not mention the property, after the second
+// Destroy. The properties are discovered from the tree under test (whatever RegisterProperty has seen),
+// each with the values "true", "false", "1" (a value the setter rejects ends the scenario at Refresh).
+// ---------------------------------------------------------------------------------------------
+
+type clockSink struct{ lines []string }
+
+func (s *clockSink) Write(b []byte) (int, error) { s.lines = append(s.lines, string(b)); return len(b), nil }
+
+func wallClockCases() [][2]string {
+	out := [][2]string{{"", ""}}
+	for _, p := range log.VerifPropertyNames() {
+		for _, v := range []string{"true", "false", "1"} {
+			out = append(out, [2]string{p, v})
+		}
+	}
+	return out
+}
+
+func init() {
+	registerFamily(Fam{Prop: "C10", Name: "c10/wall-clock-through-the-lifecycle", Tiers: "qt",
+		Count: func(string) int { return len(wallClockCases()) },
+		Make: func(tier string, i int) *zzvrt.Scenario {
+			pc := wallClockCases()[i]
+			b := zzvrt.Bounds{Preempt: 1, Horizon: 20000}
+			if tier == "thorough" {
+				b.Preempt = 2
+			}
+			var rerr string
+			var probes []string // "label|want-ms|got"
+			sink := &clockSink{}
+			return &zzvrt.Scenario{
+				Desc:   fmt.Sprintf("property %s=%s", pc[0], pc[1]),
+				Before: func() { resetAll(); hrecItems, hrecTokens, rerr, probes = nil, -1, "", nil; sink.lines = nil },
+				Opts:   zzvrt.RunOpts{Bounds: b},
+				Body: func() {
+					x := zzvrt.Cur()
+					conf := func(withProp bool) map[string]string {
+						m := map[string]string{"appender.h.type": "HRec", "logger.root.type": "Logger", "logger.root.appenderRef.ref": "h"}
+						if withProp && pc[0] != "" {
+							m[pc[0]] = pc[1]
+						}
+						return m
+					}
+					refresh := func(withProp bool) bool {
+						var err error
+						zzvrt.Atomic(func() {
+							log.TimeNow = nil
+							log.Stdout = sink
+						})
+						if err = log.Refresh(conf(withProp)); err != nil {
+							rerr = err.Error()
+							return false
+						}
+						return true
+					}
+					probe := func(label string, builtin bool) {
+						vtime.Sleep(90 * time.Minute)
+						zzvrt.WaitQuiescent() // whatever the library runs in the background has seen the new time
+						want := x.Now
+						n, m := len(hrecItems), len(sink.lines)
+						log.Warn(context.Background(), c03Tags[0], log.Int("id", 7))
+						got := "nothing recorded"
+						if builtin {
+							if len(sink.lines) > m {
+								got = "line:" + sink.lines[m]
+							}
+						} else if len(hrecItems) > n {
+							got = hrecItems[n]
+						}
+						probes = append(probes, fmt.Sprintf("%s|%d|%s", label, want.Sub(fixedT).Milliseconds(), got))
+					}
+					if !refresh(true) {
+						return
+					}
+					probe("first configuration live", false)
+					log.Destroy()
+					probe("after Destroy (built-in logger)", true)
+					rerr = ""
+					if !refresh(false) {
+						rerr = "second Refresh (property not mentioned): " + rerr
+						return
+					}
+					probe("second configuration live", false)
+					log.Destroy()
+					probe("after the second Destroy (built-in logger)", true)
+				},
+				Check: func(x *zzvrt.Exec) (string, []zzvrt.Violation) {
+					key := fmt.Sprintf("property %s=%s", pc[0], pc[1])
+					if x.Outcome != "" {
+						return x.Outcome, []zzvrt.Violation{{Clause: "no-" + strings.SplitN(x.Outcome, ":", 2)[0], Key: key, Detail: x.Outcome + " " + firstLines(x.Stack, 8)}}
+					}
+					if rerr != "" {
+						if strings.HasPrefix(rerr, "second Refresh") {
+							return "err", []zzvrt.Violation{{Clause: "valid-config-rejected", Key: key, Detail: rerr}}
+						}
+						return "value-rejected", nil // the setter does not take this value: nothing to probe
+					}
+					var v []zzvrt.Violation
+					for _, p := range probes {
+						ps := strings.SplitN(p, "|", 3)
+						var want int64
+						fmt.Sscanf(ps[1], "%d", &want)
+						gotMs, ok := int64(0), false
+						if strings.HasPrefix(ps[2], "line:") {
+							// "[WARN][2025-06-01T11:30:00.000][file:line] tag||id=7"
+							if j := strings.Index(ps[2], "]["); j >= 0 && len(ps[2]) >= j+2+23 {
+								stamp := ps[2][j+2 : j+2+23]
+								for _, loc := range []*time.Location{time.UTC, time.Local} {
+									if t, err := time.ParseInLocation("2006-01-02T15:04:05.000", stamp, loc); err == nil {
+										if d := t.Sub(fixedT).Milliseconds() - want; d >= -1000 && d <= 1000 {
+											gotMs, ok = t.Sub(fixedT).Milliseconds(), true
+										} else if !ok {
+											gotMs = t.Sub(fixedT).Milliseconds()
+										}
+									}
+								}
+							}
+						} else if j := strings.Index(ps[2], "|ms="); j >= 0 {
+							fmt.Sscanf(ps[2][j+4:], "%d", &gotMs)
+							d := gotMs - want
+							ok = d >= -1000 && d <= 1000
+						}
+						if !ok {
+							v = append(v, zzvrt.Violation{Clause: "record-time", Key: key, Detail: fmt.Sprintf("%s: no time hook is set; the clock read %s at the call, the record carries %s (%s)", ps[0],
+								fixedT.Add(time.Duration(want)*time.Millisecond).Format("15:04:05.000"), fixedT.Add(time.Duration(gotMs)*time.Millisecond).Format("2006-01-02T15:04:05.000"), strings.TrimSpace(ps[2]))})
+						}
+					}
+					return strings.Join(probes, ";"), v
+				},
+			}
+		}})
 }
